@@ -56,6 +56,19 @@ HISTORY = {
     "C09/D1-m2": ("pre", "small QueueCapacity in reader scenarios (partition readers parked on a full queue)"),
     "C12/D6-m1": ("pre", "broker id 0"),
     "C12/D6-m2": ("pre", "change op outage (nothing reachable for longer than the metadata TTL)"),
+    # round 4
+    "C01/E1-m1": ("missed", "error code -1 (UNKNOWN_SERVER_ERROR) among the permanent produce error codes"),
+    "C02/E2-m2": ("missed", "step setoffset-race (SetOffset while a FetchMessage call is about to take a message of the old position)"),
+    "C04/E4-m2": ("missed", "Conn.WriteMessages: key, value, timestamp and headers of every record on the wire compared with the call's messages"),
+    "C08/E4-m2": ("missed", "Writers built by NewWriter(WriterConfig) (wsim ViaNewWriter) + lone message on an idle writer must leave after the configured BatchTimeout"),
+    "C09/E5-m1": ("missed", "broker states stall-leave / leave-stall (LeaveGroup never answered)"),
+    "C13/E5-m1": ("missed", "RoundRobin spin-barrier rounds: the answers of N simultaneous calls form the multiset every sequential order gives"),
+    "C10/E6-m1": ("missed", "Conn operations seekCurNoCheck / seekAbsNoCheck (SeekDontCheck flag)"),
+    "C10/E6-m2": ("missed", "the codec value the threads share is unused when they start (the setup blob is made with a copy)"),
+    "C11/E7-m1": ("missed", "TestPartialReads: logs mixing plain and compressed batches, Batch closed after any number of messages, any following operation"),
+    "C12/E8-m2": ("missed", "validate-only CreateTopics steps"),
+    "C19/E9-m2": ("missed", "NOT CAUGHT, by decision: the change makes an empty non-nil OffsetFetchRequest.Topics ask for no topic instead of all; neither the statement nor the documentation says what an empty set asks for (nil = all is documented and checked)"),
+    "C20/E10-m1": ("missed", "consumer-protocol values also sent through Client.DescribeGroups (entry describegroups), whose readers are not protocol.Unmarshal"),
 }
 
 
